@@ -8,7 +8,9 @@ label), spec/Trace_ModuleFile.tla.
     processes, with and without module_writer.
  2. V: histories of {modify source (newer/equal/older mtime), tick, delete module, old-generator module,
     1..n concurrent constructions} are executed with every construction in its own child process
-    (harness/modfile_child.py); the parent grants one interposed file-system call at a time (the
+    (harness/modfile_child.py) or, in every other history, with process p of the model being ONE long-lived
+    OS process that constructs the Template again and again (earlier Templates stay alive in it; it is
+    replaced only after a crash); the parent grants one interposed file-system call at a time (the
     schedule) and kills children before / after / midway through chosen calls (true process death).
     After every event the module path on disk is projected (absent / complete / partial) and the whole
     event trace is validated by Trace_ModuleFile.tla.  Crash points are enumerated exhaustively for the
@@ -96,6 +98,13 @@ class Child:
         self._advance()
         return ev
 
+    def again(self, now):
+        """the same process constructs the Template once more"""
+        self.final = None
+        self.p.stdin.write("again %d\n" % now)
+        self.p.stdin.flush()
+        self._advance()
+
     def kill(self):
         try:
             self.p.kill()
@@ -110,7 +119,9 @@ class Child:
 
 
 class World:
-    def __init__(self, base, use_writer):
+    def __init__(self, base, use_writer, reuse=False):
+        self.reuse = reuse        # process p of the model is ONE long-lived OS process (until it crashes)
+        self.resting = {}
         self.root = tempfile.mkdtemp(prefix="mv-mf-", dir=base)
         os.makedirs(os.path.join(self.root, "src"))
         self.src = os.path.join(self.root, "src", "t.html")
@@ -125,7 +136,7 @@ class World:
         self._write_src(0)
 
     def close(self):
-        for c in self.children.values():
+        for c in list(self.children.values()) + list(self.resting.values()):
             c.kill()
         shutil.rmtree(self.root, ignore_errors=True)
 
@@ -205,9 +216,35 @@ class World:
 
     # ---- constructions
     def begin(self, p):
-        c = Child(self.root, self.now, self.use_writer)
+        c = self.resting.pop(p, None)
+        if c is not None:
+            c.again(self.now)
+            if c.dead:
+                raise MachineryError("resting child %s died: %s" % (p, c.final))
+        else:
+            c = Child(self.root, self.now, self.use_writer)
         self.children[p] = c
-        return {"ev": "begin", "p": p}
+        evs = [{"ev": "begin", "p": p}]
+        if c.at is None:          # finished without a single file-system call
+            evs += self._finish(p)
+        return evs
+
+    def _finish(self, p):
+        c = self.children[p]
+        out = []
+        if not c.dead and c.at is None and c.final is not None:
+            f = c.final
+            if f["final"] == "done":
+                out.append({"ev": "done", "p": p, "rendered": f["rendered"]})
+            else:
+                out.append({"ev": "exc", "p": p, "type": f.get("type"), "msg": f.get("msg")})
+        if c.dead or c.at is None:
+            del self.children[p]
+            if self.reuse and not c.dead and c.p.poll() is None:
+                self.resting[p] = c
+            else:
+                c.kill()
+        return out
 
     def step(self, p, cmd="go"):
         """grant one interposed call of child p; returns list of events (with p)"""
@@ -233,16 +270,7 @@ class World:
             out.append(ev)
             if cmd == "go-die":
                 out.append({"ev": "crash", "p": p, "mid": False, "at": at + ":after"})
-        if not c.dead and c.at is None and c.final is not None:
-            f = c.final
-            if f["final"] == "done":
-                out.append({"ev": "done", "p": p, "rendered": f["rendered"]})
-            else:
-                out.append({"ev": "exc", "p": p, "type": f.get("type"), "msg": f.get("msg")})
-        if c.dead or c.at is None:
-            c.kill()
-            del self.children[p]
-        return out
+        return out + self._finish(p)
 
     def active(self):
         return sorted(self.children)
@@ -258,7 +286,7 @@ def run_history(args):
     """One seeded history; returns list of events (each with `post`)."""
     seed, steps, maxprocs, use_writer, crash_prob, base, plan = args
     rng = random.Random(seed)
-    w = World(base, use_writer)
+    w = World(base, use_writer, reuse=bool(seed % 2) or (plan is not None and plan[0] == "same"))
     events = []
 
     def add(evs):
@@ -268,6 +296,19 @@ def run_history(args):
             e["post"] = w.post()
             events.append(e)
     try:
+        if plan is not None and plan[0] == "same":
+            # ONE long-lived process constructs the Template, the world changes, it constructs it again (the earlier
+            # Template objects are still alive in that process): what was decided before must not be remembered
+            add(w.begin(1))
+            while 1 in w.children:
+                add(w.step(1))
+            for ops in plan[1]:
+                for op in ops:
+                    add(apply_env(w, op))
+                add(w.begin(1))
+                while 1 in w.children:
+                    add(w.step(1))
+            return events
         if plan is not None:
             # exhaustive single-writer crash plan: (k, mode) = die at the k-th call of the first construction
             k, mode = plan
@@ -319,6 +360,25 @@ def run_history(args):
         w.close()
 
 
+ENV_OPS = ["modify-now", "modify-prev", "modify-0", "tick", "delmod", "oldgen-older", "oldgen-newer"]
+
+
+def apply_env(w, op):
+    if op == "modify-now":
+        return w.modify(w.now)
+    if op == "modify-prev":
+        return w.modify(max(0, w.now - 1))
+    if op == "modify-0":
+        return w.modify(0)
+    if op == "tick":
+        return w.tick()
+    if op == "delmod":
+        return w.delmod()
+    if op.startswith("oldgen"):
+        return w.oldgen(op.endswith("newer"))
+    raise MachineryError(op)
+
+
 def trace_cfg(nprocs, use_writer):
     return ("CONSTANTS Procs = {%s}  MaxVer = 100000  MaxNow = 100000  Magic = %d  UseWriter = %s\n"
             "SPECIFICATION TSpec\nCHECK_DEADLOCK FALSE\n"
@@ -338,8 +398,8 @@ ACT_POINT = {"CheckDir": "direxists", "MkDir": "mkdir", "StatSrc": "statsrc", "E
 
 
 def replay_behaviour(args):
-    steps, use_writer, base = args
-    w = World(base, use_writer)
+    steps, use_writer, base, reuse = args
+    w = World(base, use_writer, reuse=reuse)
     try:
         prev = None
         for idx, (act, st) in enumerate(steps):
@@ -451,6 +511,17 @@ def check(run):
         for k in range(1, 14):
             for mode in ("before", "after", "mid"):
                 jobs.append(("plan", 2, uw, (0, 0, 2, uw, 0.0, run.scratch, (k, mode))))
+    # one long-lived process, every sequence of <= 2 history steps between its constructions (and a third construction)
+    gaps = [(a,) for a in ENV_OPS] + [(a, b) for a in ENV_OPS for b in ENV_OPS]
+    third = [(), ("delmod",), ("oldgen-newer",), ("tick", "modify-now")]
+    n_same = 0
+    for uw in (False, True):
+        for gi, g in enumerate(gaps):
+            for ti, t3 in enumerate(third):
+                if thorough or ti == gi % len(third):
+                    jobs.append(("same", 2, uw, (0, 0, 2, uw, 0.0, run.scratch, ("same", [g, t3]))))
+                    n_same += 1
+    run.extra["same_process_histories"] = n_same
     nh = 40 if not thorough else 600
     for i in range(nh):
         seed = run.rng.randrange(10 ** 9)
@@ -522,7 +593,7 @@ def check(run):
         if len(files) < num:
             raise MachineryError("simulate produced %d of %d behaviours" % (len(files), num))
         behaviours = [core.parse_simulate_file(os.path.join(simdir, fn)) for fn in files]
-        outs = list(pool.map(replay_behaviour, [(b, uw, run.scratch) for b in behaviours]))
+        outs = list(pool.map(replay_behaviour, [(b, uw, run.scratch, bi % 2 == 1) for bi, b in enumerate(behaviours)]))
         for b, mm in zip(behaviours, outs):
             replayed += 1
             run.transitions += len(b)
